@@ -404,12 +404,20 @@ angle_systems!(deg, Deg, "Deg", false);
 fn conversions<T: Fl>(rep: &mut Report) {
     let mut vals = rad::values::<T>(rep.thorough());
     vals.extend(deg::values::<T>(rep.thorough()));
+    // large finite values: every clause whose exact result is representable still applies (Deg -> Rad shrinks the
+    // number, so it applies up to MAX/2; Rad -> Deg grows it by 57.3, so it applies up to MAX/64)
+    let big = T::max_value();
+    for d in [2.0, 3.0, 3.2, 7.0, 57.0, 64.0, 100.0, 1e3, 1e6, 1e12] {
+        let x = big / num_traits::cast::<f64, T>(d).unwrap();
+        vals.push(x);
+        vals.push(-x);
+    }
     rep.cases(
         "conversions",
         T::NAME,
         &format!("{} values, both directions", vals.len()),
         vals.len(),
-        Guard::states(100).distinct(50),
+        Guard::states(100).distinct(50).need("large", 6).need("ordinary", 50),
         |i, ctx| {
             let a = vals[i];
             ctx.describe(|| format!("value {:?}", a));
@@ -420,13 +428,21 @@ fn conversions<T: Fl>(rep: &mut Report) {
                 return;
             }
             let tol = 4.0 * T::eps() * af.abs();
-            let back_r = Rad::from(Deg::from(Rad(a))).0;
-            ctx.check((back_r.f() - af).abs() <= tol, &key("convert/rad-deg-rad"), || format!("Rad({:?}) -> Deg -> Rad = {:?}", a, back_r));
+            let deg_fits = af.abs() <= T::max_value().f() / 64.0; // the degree measure of Rad(a) is representable
+            ctx.branch(if deg_fits { "ordinary" } else { "large" });
+            if deg_fits {
+                let back_r = Rad::from(Deg::from(Rad(a))).0;
+                ctx.check((back_r.f() - af).abs() <= tol, &key("convert/rad-deg-rad"), || format!("Rad({:?}) -> Deg -> Rad = {:?}", a, back_r));
+            }
             let back_d = Deg::from(Rad::from(Deg(a))).0;
             ctx.check((back_d.f() - af).abs() <= tol, &key("convert/deg-rad-deg"), || format!("Deg({:?}) -> Rad -> Deg = {:?}", a, back_d));
             // one full turn is 2 pi rad = 360 deg, so the factor is 180/pi
-            let d = Deg::from(Rad(a)).0;
-            ctx.check((d.f() - af * (180.0 / PI)).abs() <= 4.0 * T::eps() * (af * 180.0 / PI).abs(), &key("convert/rad-to-deg"), || format!("Rad({:?}) -> Deg = {:?}", a, d));
+            if deg_fits {
+                let d = Deg::from(Rad(a)).0;
+                // (a / 64) * (180/pi) * 64: the same number without an f64 overflow when the scalar type is f64 itself
+                let want = (af / 64.0) * (180.0 / PI) * 64.0;
+                ctx.check((d.f() - want).abs() <= 4.0 * T::eps() * want.abs(), &key("convert/rad-to-deg"), || format!("Rad({:?}) -> Deg = {:?}", a, d));
+            }
             let r = Rad::from(Deg(a)).0;
             ctx.check((r.f() - af * (PI / 180.0)).abs() <= 4.0 * T::eps() * (af * PI / 180.0).abs(), &key("convert/deg-to-rad"), || format!("Deg({:?}) -> Rad = {:?}", a, r));
         },
